@@ -222,6 +222,17 @@ def _mk(l, conv):
             for c in l]
 
 
+def _grid(tm, qs):
+    """query times on the grid = times of the given positions; when the map cannot convert them (a script outside every
+    domain: TimingMap.offsets raises) nothing is asked on the grid - the explicit off-grid times remain"""
+    if not qs:
+        return []
+    try:
+        return [Fr(x) for x in tm.offsets(qs)]
+    except (IndexError, ValueError, ZeroDivisionError, TypeError):
+        return []
+
+
 def _snapj(s):
     return {"m": int(s.measure), "b": F.frac_json(Fr(s.beat)), "met": F.frac_json(Fr(s.metronome))}
 
@@ -274,20 +285,30 @@ def execute(case):
                 r = tm.offsets(qs)
                 return {"v": [F.frac_json(Fr(x)) for x in r]}
             if kind == "snaps":
-                grid = [Fr(x) for x in tm.offsets(qs)] if qs else []
+                grid = _grid(tm, qs)
                 offs = grid + [F.frac_from_json(o) for o in case["offs"]]
                 offs = [conv(o) for o in offs]
-                r = tm.snaps(offs, Snapper())
+                try:
+                    r = tm.snaps(offs, Snapper())
+                except (IndexError, ValueError, ZeroDivisionError, TypeError) as e:
+                    # the model must be asked the same question: keep the query times with the exception
+                    return {"offs": [F.frac_json(Fr(o)) for o in offs], "v": None, "exc": type(e).__name__ + ": " + str(e)[:100]}
                 return {"offs": [F.frac_json(Fr(o)) for o in offs], "v": [_snapj(s) for s in r]}
             if kind == "beats":
-                offs = [Fr(x) for x in tm.offsets(qs)] if qs else []
-                r = tm.beats(offs, Snapper())
+                offs = _grid(tm, qs)
+                try:
+                    r = tm.beats(offs, Snapper())
+                except (IndexError, ValueError, ZeroDivisionError, TypeError) as e:
+                    return {"offs": [F.frac_json(o) for o in offs], "v": None, "exc": type(e).__name__ + ": " + str(e)[:100]}
                 return {"offs": [F.frac_json(o) for o in offs], "v": [F.frac_json(Fr(x)) for x in r]}
             if kind == "beats_t":
-                offs = ([Fr(x) for x in tm.offsets(qs)] if qs else []) + [F.frac_from_json(o) for o in case["offs"]]
+                offs = (_grid(tm, qs)) + [F.frac_from_json(o) for o in case["offs"]]
                 import random as _r
                 _r.Random(len(offs)).shuffle(offs)
-                r = tm.beats(offs, Snapper())
+                try:
+                    r = tm.beats(offs, Snapper())
+                except (IndexError, ValueError, ZeroDivisionError, TypeError) as e:
+                    return {"offs": [F.frac_json(o) for o in offs], "v": None, "exc": type(e).__name__ + ": " + str(e)[:100]}
                 return {"offs": [F.frac_json(o) for o in offs], "v": [F.frac_json(Fr(x)) for x in r]}
         except (IndexError, ValueError, ZeroDivisionError, TypeError) as e:
             return {"v": None, "exc": type(e).__name__ + ": " + str(e)[:100]}
@@ -329,15 +350,15 @@ def emit(case, out):
         o = F.opt(out["v"], lambda v: F.lst([F.q(F.frac_from_json(x)) for x in v]))
         return f"COffsets {tol} {init} {l} {qs} {o}"
     if kind == "snaps":
-        offs = F.lst([F.q(F.frac_from_json(x)) for x in out.get("offs", [])]) if out["v"] is not None else "[]"
+        offs = F.lst([F.q(F.frac_from_json(x)) for x in out.get("offs", [])])
         o = F.opt(out["v"], lambda v: F.lst([_snap(s) for s in v]))
         return f"CSnaps {F.boolean(exact)} {tol} {init} {l} {offs} {o}"
     if kind == "beats":
-        offs = F.lst([F.q(F.frac_from_json(x)) for x in out.get("offs", [])]) if out["v"] is not None else "[]"
+        offs = F.lst([F.q(F.frac_from_json(x)) for x in out.get("offs", [])])
         o = F.opt(out["v"], lambda v: F.lst([F.q(F.frac_from_json(x)) for x in v]))
         return f"CBeats {tol} {init} {l} {qs} {offs} {o}"
     if kind == "beats_t":
-        offs = F.lst([F.q(F.frac_from_json(x)) for x in out.get("offs", [])]) if out["v"] is not None else "[]"
+        offs = F.lst([F.q(F.frac_from_json(x)) for x in out.get("offs", [])])
         o = F.opt(out["v"], lambda v: F.lst([F.q(F.frac_from_json(x)) for x in v]))
         return f"CBeatsT {tol} {init} {l} {offs} {o}"
     raise ValueError(kind)
